@@ -117,4 +117,47 @@ def restoreOutcomeChecked (fs : List FileState) : Outcome :=
 theorem checked_never_hybrid (fs : List FileState) : restoreOutcomeChecked fs ≠ .hybrid := by
   unfold restoreOutcomeChecked; split <;> [simp; (split <;> simp)]
 
+/-! ## SQLite, the process dies (not an exception): rollback journal -/
+namespace Journal
+
+/-- **a killed SQLite save is never restored as a mixture**: at whatever file operation of the transaction the process
+dies, a loader that opens the database normally returns the previous checkpoint — or the new one, exactly when the
+journal had already been deleted -/
+theorem killed_save_prev_or_new (j n k : Nat) :
+    (load j n true (crashAt j n k) = .new ↔ j + n + 1 ≤ k) ∧
+    (load j n true (crashAt j n k) = .prev ↔ k < j + n + 1) := by
+  unfold load crashAt
+  by_cases hk : j + n + 1 ≤ k
+  · simp [hk]
+  · simp only [hk, decide_false, Bool.false_eq_true, if_false]
+    by_cases hp : min (k - j) n = 0
+    · simp [hp]; omega
+    · have hj : min k j = j := by omega
+      simp [hp, hj]; omega
+
+theorem killed_save_never_mixture (j n k : Nat) : load j n true (crashAt j n k) ≠ .mixture := by
+  rcases Nat.lt_or_ge k (j + n + 1) with h | h
+  · rw [((killed_save_prev_or_new j n k).2).mpr h]; decide
+  · rw [((killed_save_prev_or_new j n k).1).mpr h]; decide
+
+/-- a failed (killed) save leaves the previous checkpoint loadable: every kill point before the commit gives exactly it -/
+theorem killed_before_commit_keeps_prev (j n k : Nat) (h : k ≤ j + n) : load j n true (crashAt j n k) = .prev :=
+  ((killed_save_prev_or_new j n k).2).mpr (by omega)
+
+/-- **a loader that does not honour the journal reads mixtures** (database opened `immutable`, or nothing to roll back because
+no journal is kept): as soon as the transaction rewrites two pages there is a kill point at which it returns neither
+checkpoint -/
+theorem loader_ignoring_journal_mixture (j n : Nat) (hn : 2 ≤ n) : load j n false (crashAt j n (j + 1)) = .mixture := by
+  unfold load crashAt
+  have h1 : ¬ (j + n + 1 ≤ j + 1) := by omega
+  have h2 : min (j + 1 - j) n = 1 := by omega
+  have h3 : ¬ n = 0 := by omega
+  have h4 : ¬ n ≤ 1 := by omega
+  simp [h1, h2, h3, h4]
+
+example : (List.range 7).map (fun k => load 2 3 true (crashAt 2 3 k)) = [.prev, .prev, .prev, .prev, .prev, .prev, .new] := by decide
+example : (List.range 7).map (fun k => load 2 3 false (crashAt 2 3 k)) = [.prev, .prev, .prev, .mixture, .mixture, .new, .new] := by decide
+
+end Journal
+
 end BlackIt.Checkpoint
